@@ -169,6 +169,23 @@ def _file_job(a):
         ids.append(cid(to_lf(o)) if rc == 0 else "rc%d" % rc)
         ok = ok and (rc != 0 or terms_in(o) in ([], [opt]))
     res.append({"e": "Subst", "id": "subst|%s" % jid, "ids": ids, "termsok": ok})
+    # newlines=auto with a one-line header / footer file in another convention than the source
+    if i % 4 == 0 and not cfgbase and len(data.split(b"\n")) > 4:
+        for how in ("lf", "crlf", "cr"):
+            for ft in ("lf", "crlf", "cr"):
+                if ft == how:
+                    continue
+                for which in ("footer", "header"):
+                    ins = os.path.join(tmp, "f%d_ins.txt" % i)
+                    obs.write(ins, b"/* inserted text */" + TERM[ft].encode())
+                    cfg = os.path.join(tmp, "f%d_ins.cfg" % i)
+                    obs.write(cfg, "newlines=auto\ncmt_insert_file_%s=%s\n" % (which, ins))
+                    src = os.path.join(tmp, "f%d_i%s%s" % (i, how, ext))
+                    obs.write(src, variants[how])
+                    rc, so, se = sh([unc, "-c", cfg, "-q", "-l", lang, "-f", src], cwd=tmp, timeout=30)
+                    for f_ in (src, cfg, ins):
+                        os.unlink(f_)
+                    res.append({"e": "Insert", "id": "insert|%s|%s|%s|%s" % (jid, how, ft, which), "rc": rc, "src": how, "terms": terms_in(so) if rc == 0 else []})
     return res
 
 
@@ -281,6 +298,12 @@ def run(ctx):
                     ctx.violation(sig, "%s violated: layout %s formatted with newlines=%s gives different text when its terminators are converted (%s)" % (
                         b, [(x["k"], x["t"]) for x in le["layout"]], le["opt"], e["ids"]),
                         {"kind": "layoutconv", "layout": le["layout"], "opt": le["opt"]})
+                elif e["e"] == "Insert":
+                    _, jid_, how_, ft_, which_ = e["id"].rsplit("|", 4)
+                    ctx.violation("%s|inserted-%s|%s-source|%s-text" % (b, which_, how_, ft_),
+                                  "%s violated: newlines=auto, a %s source and a one-line %s file ending in %s (cmt_insert_file_%s): the output's terminators are %s" % (
+                                      b, how_.upper(), which_, ft_.upper(), which_, e["terms"]),
+                                  {"kind": "insert", "id": e["id"]})
                 else:
                     key = e["id"].split("|", 1)[1]
                     bb, lang, cb = data.get(key, (b"", "C", ""))
